@@ -96,6 +96,7 @@ def run(ctx):
     # locals / parameters the rules below refer to by name (a rename makes the analysis 'broken', never a violation)
     ctx.anchor(ctx.fn1('Oomd::BaseKillPlugin::tryToKillCgroup'), 'dry')
     P, cg = ctx.prog, ctx.cg
+    init_results_checked(ctx, "C04")
     roots = [f for f in P.fns.values() if f.name == "run" and (
         f.pq == "Oomd::BaseKillPlugin::run" or f.pq.startswith("Oomd::SystemdRestart") or
         re.match(r"Oomd::Kill\w+::run$", f.pq))]
